@@ -811,6 +811,26 @@ class Session:
         expect = "json-errors"  # a JSON document with an errors member
         r = None
         no_resp_sig = None
+        if cls == "non-xml-multibyte-sweep":
+            # valid UTF-8 that is not XML, with a multi-byte character starting at each of 16 consecutive byte offsets (the window
+            # moves on with every use of this class, all services together cover 0..271 over and over): whatever a diagnostic
+            # quotes from the rejected text is cut at some byte
+            base = 16 * (next(_SWEEP) % 17)
+            last = None
+            for off in range(base, base + 16):
+                text = "x" * off + rng.choice(["żółć–—", "😀😀", "€€€"]) + rng.choice([" <unclosed", " plain text", "<a><b></a>"])
+                last = rq("POST", rng.choice(["/definitions/add", "/definitions/replace"]), {"content": b64(text)})
+                f.bump("malformed:" + cls)
+                resp = self.do(last)
+                doc = self.json_of(resp, last, cls)
+                if doc is not None and "errors" not in doc:
+                    f.violation("malformed-accepted:%s" % cls, "malformed request (%s) answered %r" % (cls, resp.body[:200]), self.log, "an errors member", resp.brief())
+                    self.reset()
+                if self.dead:
+                    return
+            f.seen.add(("malformed", cls))
+            self.liveness(cls)
+            return
         if cls == "truncated-json":
             path, body = rng.choice([("/definitions/add", good_add), ("/definitions/replace", good_add), ("/definitions/remove", '{"namespace": "nsA", "name": "A"}'), ("/tck/evaluate", good_tck)])
             r = rq("POST", path, body[: rng.randint(1, len(body) - 1)])
@@ -864,7 +884,11 @@ class Session:
             variants = [b"\xff\xfe<definitions/>", m0.xml.encode()[:40] + b"\xc3\x28" + m0.xml.encode()[40:], b"\xed\xa0\x80"] + inside + inside
             r = rq("POST", rng.choice(["/definitions/add", "/definitions/replace"]), {"content": b64(rng.choice(variants))})
         elif cls == "non-xml-content":
-            r = rq("POST", rng.choice(["/definitions/add", "/definitions/replace"]), {"content": b64(rng.choice(["hello", "", "{}", "<a/>", "<definitions/>", "<?xml version=\"1.0\"?>", m0.xml.replace("namespace=", "nmspace="), m0.xml.replace(" name=\"A\"", ""), "\x00\x01\x02", "<definitions"]))})
+            # (also: valid UTF-8 that is not XML with multi-byte characters at every byte offset of its first 200 bytes - whatever
+            # a diagnostic quotes from the rejected document is cut at some byte)
+            off = rng.randint(0, 200) if rng.random() < 0.3 else 16 * rng.randint(1, 16) - rng.randint(1, 3)  # mostly just below a multiple of 16
+            wide = "x" * off + rng.choice(["żółć–—", "😀😀😀", "€€€€", "é" * 9]) + rng.choice([" <unclosed", "", " & < >", "<a><b></a>"])
+            r = rq("POST", rng.choice(["/definitions/add", "/definitions/replace"]), {"content": b64(rng.choice(["hello", "", "{}", "<a/>", "<definitions/>", "<?xml version=\"1.0\"?>", m0.xml.replace("namespace=", "nmspace="), m0.xml.replace(" name=\"A\"", ""), "\x00\x01\x02", "<definitions", wide, wide, wide]))})
         elif cls == "unknown-model":
             if rng.random() < 0.5:
                 r = rq("POST", "/evaluate/%s/D" % rng.choice(["NoSuchModel", "nsA", "%20", "E%2FEchoS"]), "{}", ctype="text/plain")
@@ -1070,6 +1094,10 @@ class Session:
                 self.malformed(rng)
 
 
+import itertools as _itertools
+
+_SWEEP = _itertools.count()
+
 MALFORMED_CLASSES = [
     "truncated-json",
     "wrong-field-types",
@@ -1077,6 +1105,7 @@ MALFORMED_CLASSES = [
     "invalid-base64",
     "invalid-utf8-in-content",
     "non-xml-content",
+    "non-xml-multibyte-sweep",
     "unknown-model",
     "unknown-invocable",
     "feel-syntax-error-in-input",
